@@ -1,0 +1,38 @@
+//go:build verif
+
+package value
+
+import (
+	"math"
+	"os"
+	"time"
+)
+
+// VerifPoisonInteger, VerifPoisonString mark a discarded object: with the build tag "verif" and
+// VERIF_POISON_DISCARD=1, Discard overwrites the object with these values and does not return it to
+// the pool, so that any later read of a discarded value becomes visible.
+const VerifPoisonInteger int64 = -6148914691236517206 // 0xAAAA…AAAA
+
+const VerifPoisonString = "\x00<discarded>\x00"
+
+var verifPoison = os.Getenv("VERIF_POISON_DISCARD") != ""
+
+// VerifSetPoison switches the poisoning on or off (used by in-process harnesses).
+func VerifSetPoison(on bool) { verifPoison = on }
+
+func verifDiscard(p Primary) bool {
+	if !verifPoison {
+		return false
+	}
+	switch v := p.(type) {
+	case *String:
+		v.literal = VerifPoisonString
+	case *Integer:
+		v.value = VerifPoisonInteger
+	case *Float:
+		v.value = math.Float64frombits(0x7FF8_0000_DEAD_BEEF)
+	case *Datetime:
+		v.value = time.Unix(-6148914691, 0)
+	}
+	return true
+}
